@@ -364,7 +364,7 @@ def run(ctx):
     proved = ctx.prove('C01', THEOREMS)
     rng = ctx.rng
     cases = []
-    n = 1500 if ctx.thorough else 300
+    n = 8000 if ctx.thorough else 300
     for i in range(n):
         hist = gen_history(rng)
         out, esme = asyncio.run(run_real(hist))
@@ -400,7 +400,7 @@ def run(ctx):
     # as timed out twice, or as timed out and answered
     from fractions import Fraction
     from harness import C14
-    for j in range(120 if ctx.thorough else 40):
+    for j in range(800 if ctx.thorough else 40):
         ttl = Fraction(rng.choice([1, 2, 15]))
         script = C14.gen_script(rng, rng.randint(6, 14), ttl)
         _obs, hooklog, executed, info = asyncio.run(C14.run_real(script, ttl))
@@ -409,7 +409,7 @@ def run(ctx):
         msg = C14.oracle(ttl, hooklog, executed, info)
         if msg and ('answered' in msg or 'twice' in msg):
             ctx.violation(f'two outcomes for one message: {msg}', {'function': 'concurrent', 'script': repr(script)[:1500], 'ttl': str(ttl)})
-    ns = 400 if ctx.thorough else 70
+    ns = 2500 if ctx.thorough else 70
     for i in range(ns):
         seed = rng.randrange(1 << 30)
         import random
